@@ -335,6 +335,8 @@ class Engine:
         self.trace_calls = self.opts.get('trace_calls', False)
         self.stop_on_violation = self.opts.get('stop_on_violation', False)
         self.known_excl = self.opts.get('exclude', [])
+        import collections
+        self.tail = collections.deque(maxlen=int(self.opts['tail'])) if self.opts.get('tail') else None
         from . import irs_builtins
         irs_builtins.install(self)
 
@@ -368,7 +370,34 @@ class Engine:
         for name, g in mod.globals.items():
             if g.init is not None and name not in ('llvm.global_ctors', 'llvm.compiler.used', 'llvm.used'):
                 self.store_const(st, self.gaddr[name], g.ty, g.init)
+        self.model_iostream_globals(st)
         return st
+
+    def model_iostream_globals(self, st):
+        """std::cout / cerr / clog live in libstdc++.so.  std::endl is inlined by clang and reads the stream's
+        virtual-base offset and its ctype facet (widen('\\n')) before calling put/flush (which are no-op stubs):
+        give the external stream objects a minimal well-formed shape (vbase offset 0, facet with a filled widen table)."""
+        names = [n for n in ('_ZSt4cout', '_ZSt4cerr', '_ZSt4clog') if n in self.gaddr]
+        if not names:
+            return
+        ct = self.mod.types.get('class.std::ctype')
+        try:
+            ok_off, tab_off = field_offset(ct, 8), field_offset(ct, 9)
+        except Exception:
+            ok_off, tab_off = 56, 57
+        facet = st.alloc(1024, 'global', 0, 'model ctype<char> facet')
+        self.store(st, facet + ok_off, F.I8, 1)
+        for c in range(256):
+            self.store(st, facet + tab_off + c, F.I8, c)
+        vt = st.alloc(64, 'global', 0, 'model ostream vtable')
+        for n in names:
+            a = self.gaddr[n]
+            oid = a >> OBJ_SHIFT
+            o = st.wobj(oid)
+            if o.size < 512:
+                o.size = 512
+            self.store(st, a, F.I64, vt + 24)
+            self.store(st, a + 240, F.I64, facet)
 
     def const(self, v):
         """evaluate a constant operand (cached)"""
@@ -1014,10 +1043,13 @@ class Engine:
         frames = st.frames
         H = self.handlers
         max_steps = self.max_steps
+        TAIL = self.tail
         while True:
             fr = frames[-1]
             ins = fr.block.instrs[fr.idx]
             st.steps += 1
+            if TAIL is not None:
+                TAIL.append('%s | %s' % (fr.fn.name[-50:], ins.text.strip()[:200]))
             if st.steps > max_steps:
                 raise PathEnd('bound', 'step cap %d exceeded' % max_steps)
             r = H[ins.op](self, st, fr, ins)
